@@ -1182,6 +1182,9 @@ class Engine:
             if isinstance(d, ObjData):
                 if attr in d.fields:
                     return d.fields[attr]
+                if attr == "__dict__":
+                    # read-only view of the instance attributes (membership tests)
+                    return st.alloc(DictData({k: v for k, v in d.fields.items() if k != "__open__"}, open=bool(d.fields.get("__open__"))))
                 if self.repo.has_cls(d.cls):
                     ci, m = self.repo.resolve_method(d.cls, attr)
                     if m is not None:
@@ -1319,7 +1322,7 @@ class Engine:
         if isinstance(l, Ref) or isinstance(r, Ref):
             if isinstance(op, (ast.In, ast.NotIn)) and isinstance(r, Ref) and isinstance(st.get(r), DictData) and isinstance(l, str):
                 d = st.get(r)
-                if d.open:
+                if d.open and l not in d.items:
                     raise Unsupported("membership in open dict")
                 res = l in d.items
                 return res if isinstance(op, ast.In) else not res
